@@ -119,7 +119,7 @@ class Pairs(Part):
 # ---------------------------------------------------------------------------------------- registration clause (enumerated)
 
 
-def _bytes_with(what: str, side: str) -> t.Tuple[bytes, t.Any]:
+def _bytes_with(what: str, side: str, mid: int = 1) -> t.Tuple[bytes, t.Any]:
     """bytes carrying the custom type addressed to ``side`` + the abstract value a registered session must produce"""
     ctrl_raw = ("generic", custom.OID_CUSTOM_CONTROL, True, (4242).to_bytes(4, "big"))
     if side == "server":
@@ -136,7 +136,7 @@ def _bytes_with(what: str, side: str) -> t.Tuple[bytes, t.Any]:
             m["controls"] = [ctrl_raw]
             want = dict(m, controls=[("custom-control", True, 4242)])
     else:
-        m = history.peer_message("extendedResp", 1, 0, 0)
+        m = history.peer_message("extendedResp", mid, 0, 0)
         m["controls"] = [ctrl_raw]
         want = dict(m, controls=[("custom-control", True, 4242)])
     return rfc4511.encode(m), want
@@ -155,9 +155,10 @@ class Registrations(Part):
             for n in range(4):
                 for subset in itertools.combinations(["control", "filter", "auth"], n):
                     for order in itertools.permutations(subset):
-                        if k % nshards == shard:
-                            yield {"side": side, "registered": list(order)}
-                        k += 1
+                        for warm in (False, True):
+                            if k % nshards == shard:
+                                yield {"side": side, "registered": list(order), "warm": warm}
+                            k += 1
 
     def check(self, c: t.Any, ctx: Ctx) -> t.List[Violation]:
         _LDAPError, ProtocolError = sess.errors()
@@ -167,6 +168,26 @@ class Registrations(Part):
         B = sess.new(side)  # created before, never registered
         A = sess.new(side)
         reg = {"control": "register_control", "filter": "register_filter", "auth": "register_auth_credential"}
+        if c.get("warm"):
+            # the session has already encoded and decoded ordinary traffic (controls, filters, credentials of the
+            # built-in kinds) before anything is registered: lookup tables built lazily must not go stale
+            ctx.event("warm-session")
+            ctrl = [("generic", "1.2.3.4.5", False, b"x"), ("paged", False, 1, b"")]
+            if side == "server":
+                for mid, m in enumerate([history.peer_message("searchRequest", 901, 0, 0), history.peer_message("extendedReq", 902, 0, 0)]):
+                    m["controls"] = ctrl
+                    A.receive(rfc4511.encode(m))
+                A.search_result_done(901)
+                A.extended_response(902)
+                A.receive(rfc4511.encode(history.peer_message("bindRequest", 903, 0, 1)))
+                A.bind_response(903)
+                A.data_to_send()
+            else:
+                i1 = A.search_request(filter=sess.lib().FilterEquality("cn", b"x"), controls=[sess.lib().ShowDeletedControl(True)])
+                m = history.peer_message("searchResDone", i1, 0, 0)
+                m["controls"] = ctrl
+                A.receive(rfc4511.encode(m))
+                A.data_to_send()
         for what in c["registered"]:
             getattr(A, reg[what])(C[what])
             try:
@@ -188,7 +209,7 @@ class Registrations(Part):
 
                 s = copy.deepcopy(s0)
                 if side == "client":
-                    s.extended_request("1.2.3")
+                    data, want = _bytes_with(what, side, s.extended_request("1.2.3"))
                     s.data_to_send()
                 try:
                     r = s.receive(data)
@@ -232,7 +253,8 @@ class Registrations(Part):
                 order = [("A", a2, want), ("B", b2, wantB)] if first == "A" else [("B", b2, wantB), ("A", a2, want)]
                 for name, s, w in order:
                     if side == "client":
-                        s.extended_request("1.2.3")
+                        data, w0 = _bytes_with(what, side, s.extended_request("1.2.3"))
+                        w = dict(w, id=w0["id"])
                         s.data_to_send()
                     try:
                         got2: t.Any = [absval.to_abstract(m, decoded=True) for m in s.receive(data)]
